@@ -32,6 +32,7 @@ SuccsPar(n, E, P) == [ u \in 1..n |-> Dup(SortedSeq({ v \in 1..n : <<u, v>> \in 
 \* becomes non-bottom downstream of a non-bottom input (bottom -> bottom, everything else -> top)
 Fam(l) ==
   CASE MCFam = "all"       -> MonoFns(l)
+    [] MCFam = "idgen"     -> { IdFn(l), ConstFn(l, Size(l) - 1) }
     [] MCFam = "idgenkill" -> { IdFn(l), ConstFn(l, Size(l) - 1), ConstFn(l, 0),
                                 [ i \in 1..Size(l) |-> IF i = 1 THEN 0 ELSE Size(l) - 1 ] }
 TfOf(n, l, E, t) == [ u \in 1..n |-> [ v \in 1..n |-> IF <<u, v>> \in E THEN t[<<u, v>>] ELSE IdFn(l) ] ]
